@@ -1,7 +1,7 @@
 (* Property C04 — the 16 gate ids mean the same Boolean function in every representation.
    Only statements; every proof is `exact <lemma>`. *)
 From Coq Require Import ZArith List Bool Reals String.
-From TLX Require Import Model.Bits Model.Poly Proofs.C04Facts.
+From TLX Require Import Model.Bits Model.Poly Proofs.C04Facts Proofs.C04Docs.
 From TLX Require Import Gen.Ops Gen.GateCode Gen.Tables.
 Import ListNotations.
 Open Scope string_scope.
